@@ -3,7 +3,7 @@
 From Coq Require Import NArith ZArith List Bool.
 Import ListNotations.
 Require Import UV.Gen.Consts UV.Mcount.Model UV.Mcount.Forest UV.Mcount.PlainStep UV.Mcount.PlainProofs
-  UV.Mcount.Restore UV.Mcount.SelectSpec UV.Mcount.Select UV.Mcount.Embed UV.Mcount.EmbedOver UV.Mcount.EmbedMore UV.Mcount.Check UV.Mcount.SelectSpec2 UV.Mcount.Select2 UV.Mcount.Method UV.Mcount.Finish.
+  UV.Mcount.Restore UV.Mcount.SelectSpec UV.Mcount.Select UV.Mcount.Embed UV.Mcount.EmbedOver UV.Mcount.EmbedMore UV.Mcount.Check UV.Mcount.SelectSpec2 UV.Mcount.Select2 UV.Mcount.Method UV.Mcount.Finish UV.Mcount.FinishMI.
 Local Open Scope N_scope.
 
 (* The filter state after a function returns equals the state before it was called - for EVERY
@@ -238,3 +238,13 @@ Theorem C05_finish_legacy_refuted :
     [{| r_time := 100; r_type := ENTRY; r_depth := 0; r_addr := 0 |}].
 Proof. exact finish_legacy_refuted. Qed.
 Print Assumptions C05_finish_legacy_refuted.
+
+(* Method independence WITH the finish trigger: for EVERY configuration (any trigger table including finish, any -D / -t /
+   -C / -Z / -L) and every call forest that fits into --max-stack the run that stops at the first firing entry writes
+   the same records under both instrumentation shapes (the two runs are related at every instant, take the same
+   decision at every entry and flush the same pending ENTRY records: Mcount/FinishMI.v). *)
+Theorem C05_method_independent_with_finish : forall c z f, heights f <= max_stack c ->
+  out (fst (fst (exec_f (pg_of c) (flat_forest f) (init_z z, [], false)))) =
+  out (fst (fst (exec_f (cyg_of c) (flat_forest f) (init_z z, [], false)))).
+Proof. exact finish_method_independent. Qed.
+Print Assumptions C05_method_independent_with_finish.
